@@ -67,6 +67,8 @@ THEOREMS = [
     "Cotengra.C14.fingerprint_b_counterexample",
     "Cotengra.C14.fingerprint_b_shares_entry",
     "Cotengra.C14.fingerprint_b_partial",
+    "Cotengra.C14.fingerprint_b_partial_path",
+    "Cotengra.C14.fingerprint_b_scalar_counterexample",
 ]
 TRUSTED = [
     "Lean 4.33 kernel; axioms ⊆ {propext, Classical.choice, Quot.sound}",
